@@ -21,7 +21,7 @@ use soroban_sdk::{vec as svec_, Address, Bytes, BytesN, Env, IntoVal, String as 
 use std::collections::BTreeMap;
 use std::panic::{catch_unwind, AssertUnwindSafe};
 
-pub const N_KEYS: usize = 12;
+pub const N_KEYS: usize = 40;
 pub const P_STRANGER: usize = 8;
 pub const N_PRINCIPALS: usize = 9;
 
@@ -464,7 +464,7 @@ impl<'a> GExec<'a> {
         let digest = signing_digest(&domain, &set_hash, &signed_data);
         let mut sigs: Vec<Option<[u8; 64]>> = vec![];
         for (p, s) in declared.signers.iter().enumerate() {
-            if p < 32 && (spec.mask >> p) & 1 == 1 {
+            if p < 64 && (spec.mask >> p) & 1 == 1 {
                 match s.key_id {
                     Some(k) => sigs.push(Some(self.keys.sign(k, &digest))),
                     None => sigs.push(None),
